@@ -5,7 +5,7 @@
    `unrolled c F` (closed form of its result).  Proved here, for ALL circuits and ALL feedback sets with an acyclic cut:
    the semantics and the io structure of the closed form, and that the feedback choice of the code is always legal
    (back edges of ANY node order that lie on a cycle).  Not proved, decided per case by Run_C18.agree/holds:
-   `C18_closed_form_full` (API-level model = closed form), lint-cleanliness and acyclicity of the result. *)
+   `C18_closed_form_full` (API-level model = closed form) and lint-cleanliness of the result. *)
 From stdpp Require Import strings gmap sets fin_sets.
 From CG Require Import Base.Oracle Model.AcyclicUnroll Model.TopoEval Proofs.AcyclicUnrollProofs.
 Open Scope string_scope.
@@ -49,6 +49,12 @@ Theorem C18_inputs_partial : ∀ c F, names_ok c F →
 Proof. exact unrolled_inputs'. Qed.
 Print Assumptions C18_inputs_partial.
 
+(* the result is acyclic *)
+Theorem C18_result_acyclic_partial : ∀ c F, closed c → names_ok c F → (∀ f, f ∈ F → f ∈ dom c) → cut_acyclic c F →
+  acyclic (unrolled c F).
+Proof. intros c F Hc [Hn _] HF Hcut. by apply unrolled_acyclic. Qed.
+Print Assumptions C18_result_acyclic_partial.
+
 (* C05 clause: acyclic_unroll of an already acyclic circuit (no feedback node) is equivalent to it on inputs/outputs *)
 Theorem C05_acyclic_unroll_of_acyclic_partial : ∀ c v w,
   closed c → free_are_inputs c → names_ok c [] → acyclic c →
@@ -64,14 +70,14 @@ Proof. exact te_certified. Qed.
 Print Assumptions C18_oracle_evaluator_certified.
 
 (* --- what is NOT proved (visible, decided per case by Run_C18): the API-level model produces the closed form, and the
-       result is lint-clean and acyclic.  With these the `_partial` theorems above become DESIGN.md's C18_acyclic_unroll. --- *)
+       result is lint-clean.  With these the `_partial` theorems above become DESIGN.md's C18_acyclic_unroll. --- *)
 Definition C18_closed_form_full : Prop := ∀ C F,
   lint_clean C → bb_free C → closed (c_g C) → (∀ n, n ∉ fanin (c_g C) n) → names_ok (c_g C) F →
   NoDup F → (∀ f, f ∈ F → f ∈ dom (c_g C)) → cut_acyclic (c_g C) F →
   acyclic_unroll C F = Ok {| c_name := "acyc_" ++ c_name C; c_g := unrolled (c_g C) F; c_bbs := ∅ |}.
-Definition C18_result_wellformed_full : Prop := ∀ C F,
+Definition C18_result_lint_clean_full : Prop := ∀ C F,
   lint_clean C → closed (c_g C) → names_ok (c_g C) F → cut_acyclic (c_g C) F →
-  acyclic (unrolled (c_g C) F) ∧ lint_clean {| c_name := "acyc_" ++ c_name C; c_g := unrolled (c_g C) F; c_bbs := ∅ |}.
+  lint_clean {| c_name := "acyc_" ++ c_name C; c_g := unrolled (c_g C) F; c_bbs := ∅ |}.
 
 (* --- non-vacuity: a nested pair of cycles (g <-> h, h <-> k) with an input that is also an output --- *)
 Definition ex_c : circuit :=
